@@ -8,4 +8,5 @@ import MwVerif.Props.C16
 import MwVerif.Props.C17
 import MwVerif.Props.C18
 import MwVerif.Props.C19
+import MwVerif.Props.C20
 import MwVerif.Gen.SiteWF
